@@ -14,6 +14,7 @@ DEF_CLAUSES = {
     "def.eff_snap_ne_ref": {"C04", "C08", "C18"},
     "def.eff_inv_ne_ref": {"C04", "C18"},
     "def.member_kind": {"C14", "C03"},
+    "def.resolution": {"C14", "C04", "C18"},
     "def.other_entity_changed": {"C17"},
     "def.shared_mutable_list": {"C17"},
     "def.misuse_accepted": {"C19", "C08"},
